@@ -7,6 +7,26 @@ HOOK_COMMITS = ["9deeead"]
 
 # property -> (level, technique, level text, level note, design ref)
 CLAIMED = {
+ "C05": ("exploration",
+         "runtime monitor over recorded API histories: absolute no-output / tick-probe checks plus comparison with the replay-on-a-fresh-set reference",
+         "Generated histories over template sets that contain members whose analysis fails in every listed mode; each Execute*/ExecuteTemplate* call is observed (bytes written, error class, a tick function counting body runs): analysis errors must be sticky, write nothing and never run the body; *ToHTML must return the zero HTML with any error.",
+         "Trusted: the engine on fresh objects as reference for 'analysis fails'; the tick probe as evidence that a body ran.",
+         "DESIGN.md §5 C05"),
+ "C06": ("exploration",
+         "runtime monitor over recorded API histories: every execution compared (bytes, error-or-not) with the same call on a fresh set rebuilt from the definition calls only",
+         "Histories of first and repeated executions of members that share helpers across contexts; the replay reference isolates exactly the effect of history, which is what the property forbids.",
+         "Trusted: determinism of the engine on fresh objects (checked: repeated calls are part of the histories).",
+         "DESIGN.md §5 C06"),
+ "C07": ("exploration",
+         "runtime monitor over recorded API histories with an abstract set/lineage model: Parse-after-Execute and Clone-after-Execute must fail; executions equal the per-lineage replay reference",
+         "Histories interleave New, Parse, Clone (several generations), redefinitions on either side, Lookup, Templates and Execute*; the model decides which calls must fail, the replay reference (definition calls of the handle's own lineage only) exposes any leakage between original and clone or any late Parse that took effect.",
+         "Trusted: the abstract model (a set is frozen by the first Execute* call made on any of its handles).",
+         "DESIGN.md §5 C07"),
+ "C08": ("exploration",
+         "runtime monitor: every API call of generated hostile histories runs under recover with a journal and a watchdog; panics, worker deaths and non-returning calls are the refuting events",
+         "The widest template grammar and call sequences that keep going after errors; one child process per shard journals each history before running it, so a fatal error leaves its witness.",
+         "Trusted: Go's recover semantics; a 60 s wall-clock watchdog per history only ends the worker, the verdict comes from the journalled case.",
+         "DESIGN.md §5 C08"),
  "C03": ("exploration",
          "runtime monitor: typed-vs-plain differential per sanitization cell + token-structure and decoded-value check of every attribute cell (independent tokenizer)",
          "All 46 context cells x 7 safe types x pointer depth 0-2 x a hostile contents corpus are executed (and seeded soups): outside its own context a typed value must behave exactly like the plain string; in attribute cells no value may change the token structure, and emitted values must decode to the contents.",
